@@ -1,7 +1,37 @@
+import GeoVerif.Proofs.LineState
 import GeoVerif.Model.Overloads
-open GeoVerif GeoVerif.Overloads GeoVerif.Gen.Overloads
-#eval table.all rowOK
-#eval (table.filter (fun r => !rowOK r)).map ovlId
-#eval lineEnumsAgree
-#eval table.map ovlId
-theorem t1 : table.all rowOK = true := by decide
+namespace GeoVerif.Props.C12
+open GeoVerif GeoVerif.Mask GeoVerif.LineState Gen.Mask
+
+variable {α : Type}
+
+/-! ### the third point of a line object: state machine over arbitrary histories -/
+
+/-- **history independence**: after any history of setter and reader calls (and copies), the line object is in the state
+    that a fresh line (same capabilities, third point never set) reaches from the *last* setter call alone; if no setter
+    was called the state is unchanged -/
+theorem history_independent (e : Enum) (K : Kern α) (st : St α) (h : List (Ev α)) :
+    (run e K st h).1 = (match lastSet h with | none => st | some o => step e K (fresh K st.caps) o) :=
+  run_state e K st h
+
+/-- every value a reader returns in the course of a history is the value it returns on the line that has seen only the
+    last setter call before it -/
+theorem reader_history_independent (e : Enum) (K : Kern α) (st : St α) (h1 h2 : List (Ev α)) (r : Rd) :
+    (run e K st (h1 ++ .get r :: h2)).2 =
+      (run e K st h1).2 ++ read K (match lastSet h1 with | none => st | some o => step e K (fresh K st.caps) o) r ::
+        (run e K (run e K st h1).1 h2).2 := by
+  rw [run_append]; simp only [run]; rw [run_state]
+
+/-- the capabilities never change -/
+theorem caps_invariant (e : Enum) (K : Kern α) (st : St α) (h : List (Ev α)) : (run e K st h).1.caps = st.caps :=
+  run_caps e K st h
+
+/-- the two guards in terms of the capability bits the user passed to the constructor: a line can turn a distance into
+    an arc iff it was given the `DISTANCE_IN` bit, and an arc into a distance iff it was given the `DISTANCE` bit -/
+theorem guards_spec (e : Enum) (he : e = geod ∨ e = geodx) (caps : Nat) :
+    canLocate e (lineCaps e caps) false = caps.testBit distanceInBit ∧
+    canLocate e (lineCaps e caps) true = true ∧
+    assignsS12 e (lineCaps e caps) = caps.testBit Out.s12.bit := by
+  sorry
+
+end GeoVerif.Props.C12
